@@ -185,8 +185,8 @@ theorem failed_is_final (w : World) (h : w.phase = .failed) (as : List Act) :
     (`reqCount`), and as long as no attempt already in its retry loop is re-sent (`.retry ∉ as` — the exact
     guard), the API server receives nothing at all (`attemptCount`).
 
-    Full statement wanted by the property: `attemptCount` unchanged without the guard. False of the code:
-    `paused_retry_witness` (finding C19-F2). Not covered either way: a listing already answered is still
+    Full statement wanted by the property: `attemptCount` unchanged without the guard. False of the code
+    for listings: `paused_retry_witness` (finding C19-F2); true for watch requests: `paused_no_watch_attempt`. Not covered either way: a listing already answered is still
     yielded while paused (its items are not requests), and between `.pause` and `.notice` (the waiter task
     has not run yet) requests may still go out. -/
 theorem paused_silent_partial (w : World) (hq : Quiet w) (hp : w.paused = true) (as : List Act)
@@ -206,15 +206,39 @@ theorem paused_silent_partial (w : World) (hq : Quiet w) (hp : w.paused = true) 
       show attemptCount (run (step w a) as).outs = _
       rw [h2 (fun h => hnr (List.mem_cons_of_mem _ h)), attemptCount_eq, attemptCount_eq, hc, retryCount_step w har]
 
-/-- **The guard is needed (C19-F2).** The operator is paused and the pause has been noticed while a
-    listing is outstanding; its attempt fails with a retryable error and `api.request` re-sends it:
-    the API server receives a request while paused. (The same for a watch request: `.retryWatch`.) -/
+/-- **The guard is needed (C19-F2, listings).** The operator is paused and the pause has been noticed
+    while a LISTING is outstanding (`fetching.list_objs` has no stopper); its attempt fails with a retryable
+    error and `api.request` re-sends it: the API server receives a list request while paused. -/
 theorem paused_retry_witness :
     let w := run init [.wake, .pause, .notice]
     Quiet w ∧ w.paused = true ∧ attemptCount (run w [.retry]).outs = attemptCount w.outs + 1 ∧
-    let w2 := run init [.wake, .respond, .drop .eof, .pause, .notice]
-    Quiet w2 ∧ w2.paused = true ∧ (run w2 [.retry]).outs.head? = some (.retryWatch 0) := by
-  refine ⟨Or.inl (by decide), by decide, by decide, Or.inl (by decide), by decide, by decide⟩
+    (run w [.retry]).outs.head? = some .retryList := by
+  refine ⟨Or.inl (by decide), by decide, by decide, by decide⟩
+
+/-- **… but nothing is WATCHED while paused, retries included.** From the moment the pause has been
+    noticed and for as long as the toggle stays on, no watch request is sent or re-sent, whatever happens:
+    a watch request that is pending (even asleep between its retries) when the pause is noticed is
+    cancelled on the spot (kopf d8da165 repaired the stopper callback of `api.stream`; before it the
+    callback failed on its own assert and the attempts went on — the watch half of C19-F2). -/
+theorem paused_no_watch_attempt (pre : List Act) (hq : Quiet (run init pre)) (hp : (run init pre).paused = true)
+    (as : List Act) (hres : Act.resume ∉ as) :
+    watchAttemptCount (run (run init pre) as).outs = watchAttemptCount (run init pre).outs := by
+  have hc : ConnFresh (run init pre) := connFresh_run connFresh_init pre
+  generalize run init pre = w at hq hp hc
+  induction as generalizing w with
+  | nil => rfl
+  | cons a as ih =>
+      have ha : a ≠ .resume := fun h => hres (h ▸ List.mem_cons_self)
+      have hrest : Act.resume ∉ as := fun h => hres (List.mem_cons_of_mem _ h)
+      show watchAttemptCount (run (step w a) as).outs = _
+      rw [ih hrest (step w a) (quiet_step_paused hq hp a).1 (paused_step hp ha) (connFresh_step hc a),
+        watchAttempt_step_quiet hq hc a]
+
+/-- a watch request asleep in its retry loop when the pause is noticed: cancelled, nothing re-sent -/
+example :
+    let w := run init [.wake, .respond, .drop .eof, .retry, .pause, .notice]
+    w.phase = .backoff ∧ Quiet w ∧ (run w [.retry, .wake, .retry]).outs = w.outs := by
+  refine ⟨by decide, Or.inr (Or.inl (by decide)), by decide⟩
 
 /-- The hypothesis of `paused_silent_partial` is met as soon as the pause is noticed, in every phase. -/
 theorem pause_noticed_is_quiet (w : World) (hp : w.paused = true) : Quiet (step w .notice) := by
